@@ -22,7 +22,7 @@ def needsEnc (c : Byte) : Prop := sbyte c < 32 ∨ c = EQ ∨ sbyte c > 126
 /-- `QpRun rest llen F w`: with `rest` still to be encoded, `llen` characters on the current
 encoded line and `F` sent (or staged) so far, recode_qp() may end up having sent `w`. The only
 freedom is whether a blank before a soft line break is re-encoded (it is not when the staging buffer
-has just been flushed). -/
+has just been flushed).  A byte is only added to a line that has at most `recodeQpSoft` characters. -/
 inductive QpRun : List Byte → Nat → List Byte → List Byte → Prop
   | done (llen F) : QpRun [] llen F F
   | crlf (rest llen F w) : QpRun rest 0 (F ++ [CR, LF]) w → QpRun (CR :: LF :: rest) llen F w
@@ -36,13 +36,13 @@ inductive QpRun : List Byte → Nat → List Byte → List Byte → Prop
   | softFix (c rest llen F' ws w) : isBlank ws → c ≠ CR → c ≠ LF →
       QpRun (c :: rest) 0 (F' ++ wsEnc ws ++ [EQ, CR, LF]) w → QpRun (c :: rest) llen (F' ++ [ws]) w
   | dot (rest F w) : QpRun rest 1 (F ++ [DOT, DOT]) w → QpRun (DOT :: rest) 0 F w
-  | wsEnd (c llen F w) : isBlank c → QpRun [] (llen + 3) (F ++ wsEnc c) w → QpRun [c] llen F w
-  | wsCrLf (c rest llen F w) : isBlank c → QpRun rest 0 (F ++ wsEnc c ++ [CR, LF]) w → QpRun (c :: CR :: LF :: rest) llen F w
-  | wsCr (c rest llen F w) : isBlank c → rest.head? ≠ some LF → QpRun rest 0 (F ++ wsEnc c ++ [CR, LF]) w → QpRun (c :: CR :: rest) llen F w
-  | wsLf (c rest llen F w) : isBlank c → QpRun rest 0 (F ++ wsEnc c ++ [CR, LF]) w → QpRun (c :: LF :: rest) llen F w
-  | ws (c d rest llen F w) : isBlank c → d ≠ CR → d ≠ LF → QpRun (d :: rest) (llen + 1) (F ++ [c]) w → QpRun (c :: d :: rest) llen F w
-  | enc (c rest llen F w) : c ≠ CR → c ≠ LF → ¬ isBlank c → needsEnc c → QpRun rest (llen + 3) (F ++ qpEnc c) w → QpRun (c :: rest) llen F w
-  | plain (c rest llen F w) : c ≠ CR → c ≠ LF → ¬ isBlank c → ¬ needsEnc c → ¬ (llen = 0 ∧ c = DOT) →
+  | wsEnd (c llen F w) : llen ≤ Gen.recodeQpSoft → isBlank c → QpRun [] (llen + 3) (F ++ wsEnc c) w → QpRun [c] llen F w
+  | wsCrLf (c rest llen F w) : llen ≤ Gen.recodeQpSoft → isBlank c → QpRun rest 0 (F ++ wsEnc c ++ [CR, LF]) w → QpRun (c :: CR :: LF :: rest) llen F w
+  | wsCr (c rest llen F w) : llen ≤ Gen.recodeQpSoft → isBlank c → rest.head? ≠ some LF → QpRun rest 0 (F ++ wsEnc c ++ [CR, LF]) w → QpRun (c :: CR :: rest) llen F w
+  | wsLf (c rest llen F w) : llen ≤ Gen.recodeQpSoft → isBlank c → QpRun rest 0 (F ++ wsEnc c ++ [CR, LF]) w → QpRun (c :: LF :: rest) llen F w
+  | ws (c d rest llen F w) : llen ≤ Gen.recodeQpSoft → isBlank c → d ≠ CR → d ≠ LF → QpRun (d :: rest) (llen + 1) (F ++ [c]) w → QpRun (c :: d :: rest) llen F w
+  | enc (c rest llen F w) : llen ≤ Gen.recodeQpSoft → c ≠ CR → c ≠ LF → ¬ isBlank c → needsEnc c → QpRun rest (llen + 3) (F ++ qpEnc c) w → QpRun (c :: rest) llen F w
+  | plain (c rest llen F w) : llen ≤ Gen.recodeQpSoft → c ≠ CR → c ≠ LF → ¬ isBlank c → ¬ needsEnc c → ¬ (llen = 0 ∧ c = DOT) →
       QpRun rest (llen + 1) (F ++ [c]) w → QpRun (c :: rest) llen F w
 
 /-! ### normalizeEol, step by step -/
@@ -322,7 +322,7 @@ theorem qpRun_decode {rest : List Byte} {llen : Nat} {F w : List Byte} (run : Qp
     simp only [List.cons_append, List.nil_append, List.singleton_append, decide_true, decide_false] at d1 d2 d3
     have := ih _ d1 (by simp [d3]; decide)
     rw [this, d2, normalizeEol_ne DOT _ (by decide) (by decide)]; simp
-  | wsEnd c llen F w hb _ ih =>
+  | wsEnd c llen F w _hl hb _ ih =>
     intro a h _
     obtain ⟨x', e, hx, he, hel⟩ : ∃ x' e, wsEnc c = x' ++ [e] ∧ ¬ isBlank e ∧ e ≠ LF := by
       rcases hb with rfl | rfl
@@ -333,7 +333,7 @@ theorem qpRun_decode {rest : List Byte} {llen : Nat} {F w : List Byte} (run : Qp
     have := ih _ d1 (by simp [d3, hel])
     obtain ⟨_, _, _, c3, c4⟩ := blank_facts c hb
     rw [this, d2, normalizeEol_ne c _ c3 c4]; simp [normalizeEol]
-  | wsCrLf c rest llen F w hb _ ih =>
+  | wsCrLf c rest llen F w _hl hb _ ih =>
     intro a h _
     obtain ⟨_, _, _, c3, c4⟩ := blank_facts c hb
     have hd : wireDec (bolAfter true F) (wsEnc c ++ [CR] ++ [LF]) = some ([c] ++ [CR, LF]) := by
@@ -345,7 +345,7 @@ theorem qpRun_decode {rest : List Byte} {llen : Nat} {F w : List Byte} (run : Qp
     rw [this]
     have e2 : pendOf (F ++ wsEnc c ++ [CR, LF]) = none := by simpa using d2
     rw [e2, normalizeEol_ne c _ c3 c4, normalizeEol_crlf]; simp
-  | wsCr c rest llen F w hb hne _ ih =>
+  | wsCr c rest llen F w _hl hb hne _ ih =>
     intro a h _
     obtain ⟨_, _, _, c3, c4⟩ := blank_facts c hb
     have hd : wireDec (bolAfter true F) (wsEnc c ++ [CR] ++ [LF]) = some ([c] ++ [CR, LF]) := by
@@ -357,7 +357,7 @@ theorem qpRun_decode {rest : List Byte} {llen : Nat} {F w : List Byte} (run : Qp
     rw [this]
     have e2 : pendOf (F ++ wsEnc c ++ [CR, LF]) = none := by simpa using d2
     rw [e2, normalizeEol_ne c _ c3 c4, normalizeEol_cr _ hne]; simp
-  | wsLf c rest llen F w hb _ ih =>
+  | wsLf c rest llen F w _hl hb _ ih =>
     intro a h _
     obtain ⟨_, _, _, c3, c4⟩ := blank_facts c hb
     have hd : wireDec (bolAfter true F) (wsEnc c ++ [CR] ++ [LF]) = some ([c] ++ [CR, LF]) := by
@@ -369,7 +369,7 @@ theorem qpRun_decode {rest : List Byte} {llen : Nat} {F w : List Byte} (run : Qp
     rw [this]
     have e2 : pendOf (F ++ wsEnc c ++ [CR, LF]) = none := by simpa using d2
     rw [e2, normalizeEol_ne c _ c3 c4, normalizeEol_lf]; simp
-  | ws c d rest llen F w hb h1 h2 _ ih =>
+  | ws c d rest llen F w _hl hb h1 h2 _ ih =>
     intro a h _
     obtain ⟨_, _, _, c3, c4⟩ := blank_facts c hb
     obtain ⟨p1, p2⟩ := pend_snoc_blank F c hb
@@ -378,7 +378,7 @@ theorem qpRun_decode {rest : List Byte} {llen : Nat} {F w : List Byte} (run : Qp
       simpa [wireDec] using this
     have := ih _ (by rw [p1]; exact hF) (by rw [bolAfter_snoc]; simp [c4])
     rw [this, p2, normalizeEol_ne c _ c3 c4]; simp
-  | enc c rest llen F w h1 h2 h3 h4 _ ih =>
+  | enc c rest llen F w _hl h1 h2 h3 h4 _ ih =>
     intro a h _
     have hlt : c.toNat % 16 < 16 := Nat.mod_lt _ (by decide)
     have hnb : ∀ n : Fin 16, ¬ isBlank (hexOf n.val) ∧ hexOf n.val ≠ LF := by decide
@@ -389,7 +389,7 @@ theorem qpRun_decode {rest : List Byte} {llen : Nat} {F w : List Byte} (run : Qp
     rw [← hq] at d1 d2 d3
     have := ih _ d1 (by simp [d3, hel])
     rw [this, d2, normalizeEol_ne c _ h1 h2]; simp
-  | plain c rest llen F w h1 h2 h3 h4 h5 _ ih =>
+  | plain c rest llen F w _hl h1 h2 h3 h4 h5 _ ih =>
     intro a h hb
     obtain ⟨l1, l2⟩ := plain_isLit c h4
     have hnd : ¬ (bolAfter true F = true ∧ c = DOT) := fun hh => h5 ⟨hb.mpr hh.1, hh.2⟩
